@@ -12,8 +12,11 @@ HARNESSES = [
     # tracer's hash tables and in allocator.c), 3 slots
     dict(name="traceseq-dbg", src=["traceseq.c"], variant="asan-dbg", tiers=["thorough"], args=["--slots", "3"],
          deadline={"thorough": 600}, env=_ENV),
+    # concurrent half: 2-4 threads on one tracer over a LIFO parent, every interleaving at the tracer mutex / atomic counter
+    dict(name="tracemt", src=["tracemt.c"], variant="sched", wrap=True, deadline={"quick": 150, "thorough": 1500}),
 ]
 ASSUMPTIONS = [
+    "concurrent half (tracemt): 2-4 threads (acquire/realloc/release, acquire/release, calloc/dump/release) on one BYTES or STACKS tracer over a LIFO parent that forces address reuse across threads; preemption bound 2-3 (quick) / 3-4 (thorough); a concurrent observer is only required to see a value between what it holds itself and what all threads can hold; equality is demanded at quiescence; sequentially consistent interleavings (DESIGN 4.4)",
     "sequential half only: every call history on one thread (thread interleavings are the concurrent half of C17)",
     "slots p0..p2 (thorough p0..p3); sizes 1, 8, 600; calloc shapes 1x1, 2x4, 3x200; realloc targets 0, 1, 8, 600; "
     "24 configurations = level {NONE, BYTES, STACKS/1, STACKS/8} x parent realloc {none, in place when the rounded size is unchanged, always moves} x parent calloc {no, yes}",
